@@ -161,6 +161,20 @@ MUTANTS = [
      "        return self.new(*args)", "        return self.new(*args[:-1]) if len(args) > 1 else self.new(*args)"),
     ('C03', 'named-insert-first-match-case-sensitive', 'xtuml/load.py',
      "        inst_unames = [name.upper() for name in stmt.names]", "        inst_unames = [name for name in stmt.names]"),
+    ('C12', 'statements-appended-while-parsing', ['xtuml/load.py', 'xtuml/load.py'],
+     ["        p[0].filename = p.lexer.filename\n", "        self.statements.extend(s)"],
+     ["        p[0].filename = p.lexer.filename\n        self.statements.append(p[0])\n", "        pass"]),
+    ('C12', 't-error-valueerror', 'xtuml/load.py',
+     "        raise ParsingException(\"illegal character '%s' at %s:%d\" % (t.value[0],",
+     "        raise ValueError(\"illegal character '%s' at %s:%d\" % (t.value[0],"),
+    ('C12', 'valueerror-leaks-again', 'xtuml/load.py',
+     "                except ValueError:\n                    value = None", "                except KeyError:\n                    value = None"),
+    ('C12', 'cardinality-keyerror', 'xtuml/load.py',
+     "        if p[1] not in ['M', 'MC']:\n            raise ParsingException(", "        if p[1] not in ['M', 'MC']:\n            raise KeyError("),
+    ('C12', 'quadratic-comment-regex', 'xtuml/load.py',
+     "        r'\\-\\-([^\\n]*\\n?)'", "        r'\\-\\-(([^\\n]*)*\\n)'"),
+    ('C12', 'input-keeps-statements-on-late-error', 'xtuml/load.py',
+     "        p[0] = p[1]\n        p[0].append(p[2])", "        p[0] = p[1]\n        p[0].append(p[2])\n        self.statements.append(p[2])\n        self.statements.pop() if len(p[0]) % 3 else None"),
 ]
 
 
@@ -179,11 +193,13 @@ def run_one(prop, name, fname, old, new, tier='quick'):
                                    '--exclude', '__*tab.py',
                                    os.path.join(REPO, pkg) + '/',
                                    os.path.join(root, pkg) + '/'])
-        path = os.path.join(root, fname)
-        src = open(path).read()
-        if src.count(old) < 1:
-            return 'STALE (pattern not found)'
-        open(path, 'w').write(src.replace(old, new, 1))
+        edits = [(fname, old, new)] if isinstance(fname, str) else list(zip(fname, old, new))
+        for f, o, n in edits:
+            path = os.path.join(root, f)
+            src = open(path).read()
+            if src.count(o) < 1:
+                return 'STALE (pattern not found in %s)' % f
+            open(path, 'w').write(src.replace(o, n, 1))
         env = dict(os.environ, VERIF_REPO=root)
         p = subprocess.run([os.path.join(HERE, 'vcheck'), prop, '--tier', tier,
                             '--no-evidence'], env=env, capture_output=True, text=True)
